@@ -8,6 +8,7 @@ package randomness
 import (
 	"encoding/json"
 	"fmt"
+	"io/ioutil"
 	"math"
 	"math/rand"
 	"os"
@@ -929,9 +930,9 @@ func (c *hCtx) checkRankFn() {
 // C15: entry points agree bit-identically (bytes vs bits, runner defaults, registry order)
 func (c *hCtx) checkEntryPoints() {
 	name := "entry-points"
-	sizes := []int{1121, 1200, 2500}
+	sizes := []int{1121, 1200, 2500, 2501}
 	if c.req.Budget == "thorough" {
-		sizes = append(sizes, 12500, 125000)
+		sizes = append(sizes, 12500, 12503, 125000)
 	}
 	eq := func(what string, in interface{}, a, b []float64) bool {
 		c.resp.Cases[name]++
@@ -942,6 +943,29 @@ func (c *hCtx) checkEntryPoints() {
 			}
 		}
 		return true
+	}
+	// loading a file yields the same bits as expanding its bytes
+	for _, fb := range []int{1, 7, 2500, 125000, 125001, 131072, 250000} {
+		data := make([]byte, fb)
+		c.rng.Read(data)
+		f, err := ioutil.TempFile("", "vc-readgroup-")
+		if err != nil {
+			break
+		}
+		f.Write(data)
+		f.Close()
+		got := ReadGroup(f.Name())
+		os.Remove(f.Name())
+		want := B2bitArr(data)
+		c.resp.Cases[name]++
+		same := len(got) == len(want)
+		for i := 0; same && i < len(got); i++ {
+			same = got[i] == want[i]
+		}
+		if !same {
+			c.report(name, map[string]interface{}{"file_bytes": fb, "seed": c.req.Seed}, fmt.Sprintf("ReadGroup returned %d bits", len(got)), fmt.Sprintf("the %d bits of the MSB-first expansion of the file", len(want)))
+			return
+		}
 	}
 	for _, nb := range sizes {
 		for rep := 0; rep < 3; rep++ {
@@ -1114,6 +1138,71 @@ func (c *hCtx) checkSymmetry() {
 	}
 }
 
+// C16: finite P/Q in [0,1], P = 2 min(Q,1-Q) for two-sided tests, Q = P for chi-square tests, Pass rule
+func (c *hCtx) checkWellFormed() {
+	name := "wellformed"
+	sizes := []int{128 * 8, 1121 * 8, 2500 * 8}
+	if c.req.Budget == "thorough" {
+		sizes = append(sizes, 125000*8, 1250000*8)
+	}
+	twoSided := map[int]bool{0: true, 4: true, 7: true, 8: true, 13: true, 14: true}
+	bad := func(v float64) bool { return math.IsNaN(v) || math.IsInf(v, 0) || v < -1e-9 || v > 1+1e-9 }
+	for _, n := range sizes {
+		seqs := famSeqs(n, c.rng, 4)
+		// sequences sitting near the 0.01 level for one of the overlapping P-values
+		for _, sq := range seqs {
+			data := bitsToBytes(sq.Bits)
+			in := map[string]interface{}{"family": sq.Name, "n": n, "seed": c.req.Seed}
+			for k, item := range TestMethodArr {
+				if (k == 12 && len(data) < 63) || (k == 13 && len(data) < 1121) || (k == 9 && len(data) < 128) {
+					continue
+				}
+				c.resp.Cases[name]++
+				var r *TestResult
+				var pan interface{}
+				func() {
+					defer func() { pan = recover() }()
+					r = item.Runner(data)
+				}()
+				if pan != nil {
+					c.report(name, in, fmt.Sprintf("item %d (%s) panics: %v", k+1, item.Name, pan), "a result")
+					return
+				}
+				if bad(r.P) || bad(r.Q) || (k == 3 && (bad(r.P2) || bad(r.Q2))) {
+					c.report(name, in, fmt.Sprintf("item %d (%s): P=%v Q=%v P2=%v Q2=%v", k+1, item.Name, r.P, r.Q, r.P2, r.Q2), "finite values in [0,1]")
+					return
+				}
+				if twoSided[k] {
+					if math.Abs(r.P-2*math.Min(r.Q, 1-r.Q)) > 1e-9 {
+						c.report(name, in, fmt.Sprintf("item %d (%s): P=%v Q=%v", k+1, item.Name, r.P, r.Q), "P = 2*min(Q, 1-Q)")
+						return
+					}
+				} else if r.Q != r.P || (k == 3 && r.Q2 != r.P2) {
+					c.report(name, in, fmt.Sprintf("item %d (%s): P=%v Q=%v", k+1, item.Name, r.P, r.Q), "Q = P")
+					return
+				}
+				want := r.P >= 0.01
+				if k == 3 {
+					want = math.Min(r.P, r.P2) >= 0.01
+				}
+				if r.Pass != want {
+					c.report(name, in, fmt.Sprintf("item %d (%s): Pass=%v with P=%v P2=%v", k+1, item.Name, r.Pass, r.P, r.P2), fmt.Sprintf("Pass=%v", want))
+					return
+				}
+			}
+			// non-default parameters
+			for _, m := range []int{2, 5, 7} {
+				c.resp.Cases[name]++
+				p, q := ApproximateEntropyProto(sq.Bits, m)
+				if bad(p) || q != p {
+					c.report(name, in, fmt.Sprintf("approximate entropy m=%d: P=%v Q=%v", m, p, q), "finite, Q = P")
+					return
+				}
+			}
+		}
+	}
+}
+
 // C18: inputs untouched, repeatable, same results under concurrent calls
 func (c *hCtx) checkPurity() {
 	name := "purity"
@@ -1240,6 +1329,8 @@ func TestVerifHarness(t *testing.T) {
 			c.checkSymmetry()
 		case "purity":
 			c.checkPurity()
+		case "wellformed":
+			c.checkWellFormed()
 		default:
 			sc, ok := all[name]
 			if !ok {
